@@ -7,6 +7,8 @@ import Compress.XFlate.WriterSpec
 import Compress.XFlate.ReaderSpec
 import Compress.Proofs.XFlateStream
 import Compress.Proofs.XFlateReader
+import Compress.Proofs.XGAlloc
+import Compress.Proofs.XGWriter
 
 namespace Compress.Proofs.XFlateGlue
 open Compress Compress.XFlate
@@ -37,7 +39,9 @@ theorem writer_layout_wellformed (crc : List UInt8 → Nat) (level chunk index :
     (∀ p ∈ s.zlog, p.1.kind = .zflush → p.1.emitted ≠ []) →
     s.sink.got.length < 2 ^ 63 → (dataOf s.zlog).length < 2 ^ 63 →
     WellFormed (layoutOf s.sink.got s.allRecs) (dataOf s.zlog) := by
-  sorry
+  intro s he hb hc hflush hg hd
+  obtain ⟨rgs, tr, foot, hf⟩ := XWShape.closed_shape crc level chunk index hasConf oracle ops s0 h0 hz he hb
+  exact XGWriter.fin_wf crc s rgs tr foot hf hc hflush hg hd
 
 /-- **C05 (round trip).** Hence every sequence of Seek and Read calls on the
     reader opened over the emitted bytes behaves like a ReadSeeker over the written
@@ -55,14 +59,22 @@ theorem roundtrip (crc : List UInt8 → Nat) (level chunk index : Int) (hasConf 
     let L := layoutOf s.sink.got s.allRecs
     TraceOK (dataOf s.zlog) 0 rops (runOps .fixed L (opened .fixed L) rops) ∧
     L.endRaw = ((dataOf s.zlog).length : Int) := by
-  sorry
+  intro s he hb hc hflush hg hd L
+  have wf : WellFormed L (dataOf s.zlog) :=
+    writer_layout_wellformed crc level chunk index hasConf oracle ops s0 h0 hz he hb hc hflush hg hd
+  exact ⟨Compress.Proofs.XFlateReader.readseeker L (dataOf s.zlog) wf rops, wf.endEq⟩
 
 /-- **C08 (index parser).** Whatever the input declares, the number of chunk
     entries `Reader.Reset` appends while parsing is bounded by the input length
     (the repaired code; the original appended one entry per *declared* record). -/
 theorem open_alloc_bounded (crc : List UInt8 → Nat) (stream : List UInt8) (r : OpenResult)
     (h : openIndex .fixed crc stream = .ok r) : r.alloc ≤ stream.length := by
-  sorry
+  -- every appended entry became a record of compressed size ≥ 5 (`build` rejects `cs ≤ 4`),
+  -- and the backward walk checks that each index's records fit in front of it:
+  -- `5 * r.alloc ≤ stream.length` (the payload-length argument does not work: a meta
+  -- block can carry 31 payload bytes in 12 encoded bytes).
+  have := XGAlloc.open_alloc5 crc stream r h
+  omega
 
 /-- on the code as it was, the same count is unbounded in a number merely
     declared in the input: for every `N` there is a 43-byte-scale stream shape
@@ -71,6 +83,17 @@ theorem open_alloc_bounded (crc : List UInt8 → Nat) (stream : List UInt8) (r :
 theorem orig_alloc_unbounded (crc : List UInt8 → Nat) (N : Nat) (hN : N < 2 ^ 62) :
     ∃ st : VLIState, st.err = true ∧ (readChunks .orig N st [] 0).2.2 ≥ N ∧
       (readChunks .fixed N st [] 0).2.2 = 0 := by
-  sorry
+  refine ⟨{ buf := [], err := true }, rfl, ?_, ?_⟩
+  · cases N with
+    | zero => simp [readChunks]
+    | succ k => simp [readChunks]
+  · cases N with
+    | zero => simp [readChunks]
+    | succ k => simp [readChunks]
 
 end Compress.Proofs.XFlateGlue
+
+#print axioms Compress.Proofs.XFlateGlue.writer_layout_wellformed
+#print axioms Compress.Proofs.XFlateGlue.roundtrip
+#print axioms Compress.Proofs.XFlateGlue.open_alloc_bounded
+#print axioms Compress.Proofs.XFlateGlue.orig_alloc_unbounded
